@@ -766,8 +766,13 @@ pub fn c08_case(ctx: &mut Ctx, rng: &mut Rng) {
     let u1 = gen_user(rng, &spec, &cfg);
     let u2 = gen_user(rng, &spec, &cfg);
     let opts = gen_opts(rng, &spec);
-    let mapped = rng.chance(0.35);
-    let (pl, pr) = if mapped { (gen_perm_ids(rng, nl), gen_perm_ids(rng, nr)) } else { ((0..nl).collect(), (0..nr).collect()) };
+    let mapped = rng.chance(0.4);
+    let twice = mapped && rng.chance(0.5);
+    let (pl1, pr1) = if mapped { (gen_perm_ids(rng, nl), gen_perm_ids(rng, nr)) } else { ((0..nl).collect(), (0..nr).collect()) };
+    let (pl2, pr2): (Vec<usize>, Vec<usize>) = if twice { (gen_perm_ids(rng, nl), gen_perm_ids(rng, nr)) } else { ((0..nl).collect(), (0..nr).collect()) };
+    // total permutation = first then second
+    let pl: Vec<usize> = pl1.iter().map(|&x| pl2[x]).collect();
+    let pr: Vec<usize> = pr1.iter().map(|&x| pr2[x]).collect();
     let sentences: Vec<String> = (0..14).map(|_| { let pick = rng.chance(0.5); gen_sentence(rng, &spec, Some(if pick { &u1 } else { &u2 })) }).collect();
     let mk = |ctx: &mut Ctx| -> Option<Dictionary> {
         let d = match build_spec(&spec) {
@@ -778,12 +783,21 @@ pub fn c08_case(ctx: &mut Ctx, rng: &mut Rng) {
             }
         };
         if mapped {
-            let (li, ri) = (perm_to_iter(&pl), perm_to_iter(&pr));
-            guarded(move || d.map_connection_ids_from_iter(li, ri).ok()).ok().flatten()
+            let (li, ri) = (perm_to_iter(&pl1), perm_to_iter(&pr1));
+            let d = guarded(move || d.map_connection_ids_from_iter(li, ri).ok()).ok().flatten()?;
+            if twice {
+                let (li, ri) = (perm_to_iter(&pl2), perm_to_iter(&pr2));
+                guarded(move || d.map_connection_ids_from_iter(li, ri).ok()).ok().flatten()
+            } else {
+                Some(d)
+            }
         } else {
             Some(d)
         }
     };
+    if twice {
+        ctx.bucket("dictionary_mapped_twice");
+    }
     let files = |extra: serde_json::Value| json!({"lex.csv": spec.lex_csv(), "char.def": spec.char_def(), "unk.def": spec.unk_def(), "connector": format!("{:?}", conn_texts(&spec.conn)),
         "mapped(lmap,rmap)": if mapped { Some((perm_to_iter(&pl), perm_to_iter(&pr))) } else { None }, "opts": opts, "detail": extra});
     let spec_m = spec.mapped(&pl, &pr);
